@@ -998,7 +998,8 @@ class RealPart(Operator):
 
     def _call(self, x):
         """Return ``self(x)``."""
-        return x.real
+        # Copy since `x.real` is a view of (or identical to) `x`
+        return x.real.copy()
 
     def derivative(self, x):
         r"""Return the derivative operator in the "C = R^2" sense.
@@ -1125,7 +1126,8 @@ class ImagPart(Operator):
 
     def _call(self, x):
         """Return ``self(x)``."""
-        return x.imag
+        # Copy since `x.imag` is a view of `x` for complex `x`
+        return x.imag.copy()
 
     def derivative(self, x):
         r"""Return the derivative operator in the "C = R^2" sense.
